@@ -67,10 +67,10 @@ Hypothesis Hnames : names_ok names = true.
 Hypothesis Hkinds : kinds_ok kinds = true.
 Hypothesis Hglobals : globals_ok S globals = true.
 
-Notation dec := (decode S names uris kinds globals false false).
+Notation dec := (decode S names uris kinds globals false true).
 Notation refn := (ref_node S names uris kinds).
 Notation flg := (flags_node S names uris kinds).
-Notation ptop := (process_top S names uris kinds globals false false).
+Notation ptop := (process_top S names uris kinds globals false true).
 Notation rtop := (ref_top S names uris kinds).
 
 Definition conv (f : fchild) : rentry := match f with FE d _ _ => RE d | FAny _ => RAny end.
@@ -175,6 +175,12 @@ Proof.
   apply in_map_iff. exists (FE d a c). split; [reflexivity|exact Hin].
 Qed.
 
+Lemma returned_types_attr wt a : In a (flat_attrs S wt) -> In (RA a) (returned_types S wt).
+Proof.
+  unfold flat_attrs, returned_types. intro H. apply in_flat_map in H as [ct [Hc Hin]].
+  apply in_flat_map. exists ct. split; [exact Hc|]. apply in_or_app. right. now apply in_map.
+Qed.
+
 Lemma members_fnames : forall l ms seen, members l = Some ms -> fnames_ok l seen = true ->
   fnames_ok (map (fun d => FE d false false) ms) seen = true.
 Proof.
@@ -192,7 +198,7 @@ Lemma composite_ref env rts ms : rnames_ok rts [] = true -> (forall d, In d ms -
     (forall inn d t, In inn inodes -> find (fun d => decl_matches names uris d (i_u inn) (i_nm inn)) ms = Some d ->
                      resolve_tref S kinds (e_name d) (e_type d) = Some t -> flg t (e_nil d) inn = []) ->
     ref_composite S names uris kinds ms inodes data = Some fields ->
-    composite S names uris kinds globals false false env rts nodes data = DOk (PObj None fields).
+    composite S names uris kinds globals false true env rts nodes data = DOk (PObj None fields).
 Proof.
   intros Hms Hsub. induction nodes as [|n r IH]; intros inodes data fields He Hd Hf Hr; cbn in He.
   - inversion He; subst. cbn in Hr. inversion Hr. reflexivity.
@@ -243,7 +249,7 @@ Lemma reply_decodes_l : forall wq wt raw root x v,
   bodies_ok x = true ->
   flags_reply S names uris kinds wt x = [] ->
   ref_reply S names uris kinds wq wt x = Some v ->
-  reply S names uris kinds globals false true false wt raw = DOk v.
+  reply S names uris kinds globals false true true wt raw = DOk v.
 Proof.
   intros wq wt raw root x v Hwt Hrn Hb He Hc Hx Hd Hbo Hf Hr.
   unfold reply. rewrite Hb. unfold get_reply.
@@ -257,10 +263,7 @@ Proof.
   pose proof (erase_kids _ _ _ Hep) as Hek. cbn [i_kids] in Hek.
   pose proof (doc_ok_kids _ _ Hd) as Hdk.
   apply andb_true_iff in Eenv as [_ Eu].
-  unfold flags_reply in Hf. apply app_eq_nil in Hf as [Hf7 Hf].
-  assert (Hat : (length (flat_elems S wt) <= 1)%nat -> flat_attrs S wt = []).
-  { intro Hle. destruct (flat_attrs S wt); [reflexivity|].
-    apply Nat.leb_le in Hle. rewrite Hle in Hf7. discriminate. }
+  unfold flags_reply in Hf.
   unfold bodies_ok in Hbo. cbn [i_kids i_u] in Hbo.
   (* locate the Body *)
   assert (Hbody : exists body ibody,
@@ -338,10 +341,29 @@ Proof.
       - subst z. cbn in Hz. apply app_eq_nil in Hz as [Hz _]. now rewrite Hfl, Ht in Hz.
       - cbn in Hz. apply app_eq_nil in Hz as [_ Hz]. now apply IHl. }
     apply (G _ Hf Hin). }
+  destruct (flat_attrs S wt) as [|a0 ar] eqn:Eat.
+  2:{ (* the wrapper's type has attributes: always the composite object *)
+    destruct ms as [|d ms1]; [discriminate|].
+    assert (Hr' : match ref_composite S names uris kinds (d :: ms1) (i_kids w) [] with
+                  | Some fields => Some (PObj None fields)
+                  | None => None
+                  end = Some v) by (destruct ms1; exact Hr).
+    destruct (ref_composite S names uris kinds (d :: ms1) (i_kids w) []) as [fields|] eqn:Erc; [|discriminate].
+    inversion Hr'; subst v.
+    assert (Hsub : forall d0, In d0 (d :: ms1) -> In (RE d0) (returned_types S wt)).
+    { intros d0 Hin0. destruct (members_in _ _ _ Ems Hin0) as [a [c Hi]]. eapply returned_types_in; eauto. }
+    pose proof (composite_ref env (returned_types S wt) (d :: ms1) Hrn Hsub _ _ [] fields Heks Hdks Hflag Erc)
+      as Hcomp.
+    assert (HinA : In (RA a0) (returned_types S wt)) by (apply returned_types_attr; rewrite Eat; now left).
+    destruct (returned_types S wt) as [|r1 [|r2 rest]] eqn:Ert.
+    - destruct HinA.
+    - exfalso. destruct (Hsub d (or_introl eq_refl)) as [E1|[]]. destruct HinA as [E2|[]].
+      rewrite E1 in E2. discriminate.
+    - destruct r1; exact Hcomp. }
   destruct ms as [|d [|d2 ms2]].
-  - rewrite (returned_types_elems _ (Hat ltac:(rewrite Hlen; cbn; lia))), (members_conv _ _ Ems).
+  - rewrite (returned_types_elems _ Eat), (members_conv _ _ Ems).
     inversion Hr. reflexivity.
-  - rewrite (returned_types_elems _ (Hat ltac:(rewrite Hlen; cbn; lia))), (members_conv _ _ Ems).
+  - rewrite (returned_types_elems _ Eat), (members_conv _ _ Ems).
     cbn [map]. destruct (e_multi d) eqn:Emul.
     + destruct (omap (rtop d) (i_kids w)) as [vl|] eqn:Eom; [|discriminate]. inversion Hr; subst v.
       assert (G : forall nodes inodes vl0, omap (erase env) nodes = Some inodes ->
